@@ -10,6 +10,7 @@ import (
 	"bytes"
 	"context"
 	"encoding/json"
+	"errors"
 	"fmt"
 	"io"
 	"net/http"
@@ -487,9 +488,30 @@ func (e *env) step(s Step) {
 	synctest.Wait()
 }
 
+// errHTTP: a refusal received through the HTTP handler
+type errHTTP struct {
+	code int
+	msg  string
+}
+
+func (e errHTTP) Error() string { return fmt.Sprintf("http %d: %s", e.code, e.msg) }
+
 func errClass(err error) string {
 	if err == nil {
 		return ""
+	}
+	// the classes the properties speak about are recognised by what a client can rely on - the exported error values and
+	// the status codes - before any wording of a message
+	var he errHTTP
+	switch {
+	case errors.Is(err, prunner.ErrShuttingDown):
+		return "shutdown"
+	case errors.Is(err, prunner.ErrJobNotFound):
+		return "notfound"
+	case errors.As(err, &he) && he.code == http.StatusServiceUnavailable:
+		return "shutdown"
+	case errors.As(err, &he) && he.code == http.StatusNotFound:
+		return "notfound"
 	}
 	m := err.Error()
 	switch {
@@ -540,7 +562,7 @@ func (e *env) doSchedule(s Step, last *LastObs) {
 				Error string `json:"error"`
 			}
 			_ = json.Unmarshal(resp, &r)
-			err = fmt.Errorf("http %d: %s", code, r.Error)
+			err = errHTTP{code, r.Error}
 		}
 	} else {
 		var j *prunner.PipelineJob
